@@ -398,9 +398,12 @@ Proof.
   unfold influx_line_calls, influx_line_entries.
   destruct (find is_message (il_fields l)) as [[nm v]|].
   - apply one_call_ok. unfold TYPE_LOG. lia.
-  - apply calls_ok_flat_map. intros f _. destruct (snd f) as [b|b|s|].
+  - apply calls_ok_flat_map. intros f _. destruct (snd f) as [b|b|s| |z|n|b].
     + apply one_call_ok. unfold TYPE_METRIC. lia.
     + apply one_call_ok. unfold TYPE_METRIC. lia.
+    + apply calls_ok_nil.
+    + apply calls_ok_nil.
+    + apply calls_ok_nil.
     + apply calls_ok_nil.
     + apply calls_ok_nil.
 Qed.
